@@ -24,6 +24,7 @@ type op struct {
 	BehTag string
 	Att    string
 	Arg    string
+	N      int // attack variant
 }
 
 func (o op) String() string {
@@ -560,6 +561,34 @@ func (h *H) attack(o *op) {
 		cb = editCallback(cb, o.Arg)
 		b := h.bs[o.B]
 		h.do(o, b, b.ReqFor(cb))
+	case "near-miss-cookie-name":
+		// browser o.B's own cookies plus a cookie whose NAME merely ends with (or whose value merely contains) the
+		// session cookie's name, carrying the id of browser o.B2's session: only the cookie of that exact name counts
+		other := h.bs[o.B2].SID()
+		if other == "" {
+			return
+		}
+		b := h.bs[o.B]
+		req := b.ReqFor(tgt)
+		if o.Arg == "callback" && len(h.cbHist) > 0 {
+			// ... on the callback of o.B2's login: its state and code under o.B's session
+			for i := len(h.cbHist) - 1; i >= 0; i-- {
+				if h.cbOwner[i] == o.B2 {
+					req = b.ReqFor(h.cbHist[i])
+					break
+				}
+			}
+		}
+		if req.Headers == nil {
+			req.Headers = map[string]string{}
+		}
+		extra := []string{"x" + name + "=" + other, "other=" + name + "=" + other, name + "x=" + other, strings.ToUpper(name[:8]) + name[8:] + "=" + other}[o.N%4]
+		if own := req.Headers["cookie"]; own != "" {
+			req.Headers["cookie"] = own + "; " + extra
+		} else {
+			req.Headers["cookie"] = extra
+		}
+		h.do(o, b, req)
 	case "forged-callback":
 		b := h.bs[o.B]
 		cbu := h.w.Cfg.GetCallbackUri()
